@@ -413,30 +413,38 @@ def trait_value(status, msg, tag, cfg):
                                 % (tag, cfg[0], cfg[1], msg[:300]))
 
 
-def run_grouped(name, prelude, ws, stds, nshards, extra_flags=(), per_config_filter=None,
-                compilers=('g++', 'clang++'), battery=None):
-    """compile_battery, but sharded so that witnesses with the same info['group'] share a TU
-    (class-template instantiations such as small_vector<E, 4> or allocator_interface<To> are the
-    dominant cost, so they should be paid once) and every (shard, compiler, std) is one job."""
+def grouped_jobs(name, prelude, ws, stds, nshards, extra_flags=(), per_config_filter=None,
+                 compilers=('g++', 'clang++'), battery=None):
+    """Jobs (zero-argument callables, each returning {(compiler, std): {tag: (status, msg)}}) for a
+    battery sharded so that witnesses with the same info['group'] share a TU (class-template
+    instantiations such as small_vector<E, 4> or allocator_interface<To> are the dominant cost, so
+    they should be paid once); every (shard, compiler, std) is one job, newest standard first
+    (those TUs take longest)."""
     groups = {}
     for w in ws:
         groups.setdefault(w.info.get('group', ''), []).append(w)
     shards = [[] for _ in range(max(1, nshards))]
     for g in sorted(groups, key=lambda g: (-len(groups[g]), g)):
         min(shards, key=len).extend(groups[g])
-    jobs = [(k, part, comp, std) for k, part in enumerate(shards) if part
-            for comp in compilers for std in stds]
 
-    def one(job):
-        k, part, comp, std = job
-        return (battery or witness.compile_battery)(
+    def job(k, part, comp, std):
+        return lambda: (battery or witness.compile_battery)(
             '%s-g%d' % (name, k), prelude, part, compilers=(comp,), stds=(std,),
             extra_flags=extra_flags, shards=1, per_config_filter=per_config_filter)
+    return [job(k, part, comp, std) for std in reversed(list(stds)) for comp in compilers
+            for k, part in enumerate(shards) if part]
+
+
+def merge_tables(results):
     res = {}
-    for r in common.pmap(one, jobs):
+    for r in results:
         for cfg, table in r.items():
             res.setdefault(cfg, {}).update(table)
     return res
+
+
+def run_grouped(*a, **k):
+    return merge_tables(common.pmap(lambda j: j(), grouped_jobs(*a, **k)))
 
 
 def collect(ck, tier):
